@@ -6,7 +6,7 @@ import PyElf.Core.Construct
 import PyElf.Spec.Primitives
 import PyElf.Model.Utils
 namespace PyElf.Proofs
-open PyElf PyElf.Spec
+open PyElf PyElf.Spec PyElf.Model
 
 
 theorem and_7F (n : Nat) : n &&& 0x7F = n % 128 := by
@@ -80,5 +80,687 @@ theorem ulebLoop_valid (data rest : Bytes) (bs : Bytes) (h : ValidLEB bs = true)
           generalize 2 ^ shift = P
           grind
         · omega
+
+theorem ulebLoop_trunc (data bs : Bytes) (h : ∀ b ∈ bs, 128 ≤ b.toNat) :
+    ∀ fuel pos value shift, data.drop pos = bs →
+      ulebLoop data fuel pos value shift = .error .elfParseError := by
+  induction bs with
+  | nil =>
+    intro fuel pos value shift hd
+    cases fuel with
+    | zero => rfl
+    | succ fuel => rw [ulebLoop, drop_nil_inv hd]
+  | cons b bs ih =>
+    intro fuel pos value shift hd
+    cases fuel with
+    | zero => rfl
+    | succ fuel =>
+      obtain ⟨hb, hd'⟩ := drop_cons_inv hd
+      have hb128 : ¬ b.toNat < 128 := by have := h b (by simp); omega
+      rw [ulebLoop, hb]
+      simp only [and_80_aux _ b.toNat_lt, if_neg hb128]
+      exact ih (fun x hx => h x (by simp [hx])) _ _ _ _ hd'
+
+theorem ValidLEB_cons_of_ne_nil (b : UInt8) {bs : Bytes} (h : bs ≠ []) :
+    ValidLEB (b :: bs) = (decide (128 ≤ b.toNat) && ValidLEB bs) := by
+  cases bs with
+  | nil => exact absurd rfl h
+  | cons b' bs' => simp [ValidLEB]
+
+theorem encUlebN_length (n v : Nat) : (encUlebN n v).length = n := by
+  fun_induction encUlebN n v <;> simp_all
+
+theorem encUlebN_valid (n v : Nat) (hn : 1 ≤ n) : ValidLEB (encUlebN n v) = true := by
+  fun_induction encUlebN n v with
+  | case1 => omega
+  | case2 v =>
+    have : v % 128 < 128 := Nat.mod_lt _ (by decide)
+    simp [ValidLEB, UInt8.toNat_ofNat']; omega
+  | case3 n v ih =>
+    have hne : encUlebN (n + 1) (v / 128) ≠ [] := by
+      intro h; have := encUlebN_length (n + 1) (v / 128); simp [h] at this
+    rw [ValidLEB_cons_of_ne_nil _ hne, ih (by omega)]
+    have : v % 128 < 128 := Nat.mod_lt _ (by decide)
+    simp [UInt8.toNat_ofNat']; omega
+
+theorem ulebVal_enc (n v : Nat) : ulebVal (encUlebN n v) = v % 2 ^ (7 * n) := by
+  fun_induction encUlebN n v with
+  | case1 => simp [ulebVal, Nat.mod_one]
+  | case2 v =>
+    have : v % 128 < 128 := Nat.mod_lt _ (by decide)
+    simp [ulebVal, UInt8.toNat_ofNat']
+  | case3 n v ih =>
+    have : v % 128 < 128 := Nat.mod_lt _ (by decide)
+    have e : 2 ^ (7 * (n + 2)) = 128 * 2 ^ (7 * (n + 1)) := by
+      rw [show 7 * (n + 2) = 7 + 7 * (n + 1) by omega, Nat.pow_add]
+    rw [ulebVal, ih, e, Nat.mod_mul, UInt8.toNat_ofNat']
+    omega
+
+theorem encUlebN_getLast? (n v : Nat) :
+    (encUlebN (n + 1) v).getLast? = some (UInt8.ofNat (v / 128 ^ n % 128)) := by
+  induction n generalizing v with
+  | zero => simp [encUlebN]
+  | succ n ih =>
+    have hne : encUlebN (n + 1) (v / 128) ≠ [] := by
+      intro h; have := encUlebN_length (n + 1) (v / 128); simp [h] at this
+    rw [encUlebN, List.getLast?_cons_of_ne_nil hne, ih, Nat.div_div_eq_div_mul, Nat.pow_succ']
+    all_goals omega
+
+theorem shl_inv_zero (s : Nat) : PyInt.shl (PyInt.inv 0) s = Int.negSucc (2 ^ s - 1) := by
+  have := Nat.two_pow_pos s
+  simp only [PyInt.shl, PyInt.inv, Int.negSucc_eq]
+  omega
+
+theorem natAndNot_mask {s value : Nat} (h : value < 2 ^ s) :
+    PyInt.natAndNot (2 ^ s - 1) value = 2 ^ s - 1 - value := by
+  unfold PyInt.natAndNot
+  rw [Nat.and_comm, Nat.and_two_pow_sub_one_eq_mod, Nat.mod_eq_of_lt h]
+  apply Nat.eq_of_testBit_eq; intro i
+  rw [show 2 ^ s - 1 - value = 2 ^ s - (value + 1) by omega, Nat.testBit_two_pow_sub_succ h,
+    Nat.testBit_xor, Nat.testBit_two_pow_sub_one]
+  by_cases hi : i < s
+  · simp [hi]
+  · have : value < 2 ^ i := Nat.lt_of_lt_of_le h (Nat.pow_le_pow_right (by decide) (by omega))
+    simp [hi, Nat.testBit_lt_two_pow this]
+
+theorem lor_sign_extend {s value : Nat} (h : value < 2 ^ s) :
+    PyInt.lor (Int.ofNat value) (PyInt.shl (PyInt.inv 0) s) = (value : Int) - ((2 ^ s : Nat) : Int) := by
+  rw [shl_inv_zero]
+  show Int.negSucc (PyInt.natAndNot (2 ^ s - 1) value) = _
+  rw [natAndNot_mask h, Int.negSucc_eq]
+  omega
+
+theorem uleb_step_lt {value shift : Nat} (b : UInt8) (hv : value < 2 ^ shift) :
+    value + b.toNat % 128 * 2 ^ shift < 2 ^ (shift + 7) := by
+  rw [Nat.pow_add]
+  have : b.toNat % 128 < 128 := Nat.mod_lt _ (by decide)
+  generalize 2 ^ shift = P at *
+  have : b.toNat % 128 * P ≤ 127 * P := Nat.mul_le_mul_right _ (by omega)
+  omega
+
+theorem slebLoop_valid (data rest : Bytes) (bs : Bytes) (h : ValidLEB bs = true) :
+    ∀ fuel pos value shift l, bs.length ≤ fuel → data.drop pos = bs ++ rest → value < 2 ^ shift →
+      bs.getLast? = some l →
+      slebLoop data fuel pos value shift =
+        .ok (if l.toNat % 128 ≥ 64 then
+               ((value + ulebVal bs * 2 ^ shift : Nat) : Int) - ((2 ^ (shift + 7 * bs.length) : Nat) : Int)
+             else ((value + ulebVal bs * 2 ^ shift : Nat) : Int), pos + bs.length) := by
+  induction bs with
+  | nil => simp [ValidLEB] at h
+  | cons b bs ih =>
+    intro fuel pos value shift l hf hd hv hl
+    obtain ⟨hb, hd'⟩ := drop_cons_inv (by simpa using hd)
+    have hv' := uleb_step_lt b hv
+    cases fuel with
+    | zero => simp at hf
+    | succ fuel =>
+      rw [slebLoop, hb]
+      simp only [and_7F, or_shl_eq_add _ hv, and_80_aux _ b.toNat_lt]
+      cases bs with
+      | nil =>
+        simp [ValidLEB] at h
+        simp at hl
+        subst hl
+        simp only [h, if_true, and_40_aux _ h, lor_sign_extend hv']
+        simp [ulebVal]
+        split <;> rfl
+      | cons b' bs' =>
+        simp [ValidLEB] at h
+        have hnot : ¬ b.toNat < 128 := by omega
+        rw [if_neg hnot]
+        rw [ih h.2 fuel (pos + 1) _ (shift + 7) l (by simpa using hf) hd' hv' (by simpa using hl)]
+        have e1 : value + b.toNat % 128 * 2 ^ shift + ulebVal (b' :: bs') * 2 ^ (shift + 7)
+            = value + ulebVal (b :: b' :: bs') * 2 ^ shift := by
+          simp only [ulebVal, Nat.pow_add]
+          generalize ulebVal bs' = U
+          generalize 2 ^ shift = P
+          grind
+        have e2 : shift + 7 + 7 * (b' :: bs').length = shift + 7 * (b :: b' :: bs').length := by
+          simp only [List.length_cons]; omega
+        have e3 : pos + 1 + (b' :: bs').length = pos + (b :: b' :: bs').length := by
+          simp only [List.length_cons]; omega
+        rw [e1, e2, e3]
+
+theorem slebLoop_trunc (data bs : Bytes) (h : ∀ b ∈ bs, 128 ≤ b.toNat) :
+    ∀ fuel pos value shift, data.drop pos = bs →
+      slebLoop data fuel pos value shift = .error .elfParseError := by
+  induction bs with
+  | nil =>
+    intro fuel pos value shift hd
+    cases fuel with
+    | zero => rfl
+    | succ fuel => rw [slebLoop, drop_nil_inv hd]
+  | cons b bs ih =>
+    intro fuel pos value shift hd
+    cases fuel with
+    | zero => rfl
+    | succ fuel =>
+      obtain ⟨hb, hd'⟩ := drop_cons_inv hd
+      have hb128 : ¬ b.toNat < 128 := by have := h b (by simp); omega
+      rw [slebLoop, hb]
+      simp only [and_80_aux _ b.toNat_lt, if_neg hb128]
+      exact ih (fun x hx => h x (by simp [hx])) _ _ _ _ hd'
+
+/-- two's complement: the unsigned representative of `v` in `2*H` -/
+theorem emod_two_mul {H : Nat} {v : Int} (hlo : -(H : Int) ≤ v) (hhi : v < (H : Int)) :
+    (v % ((2 * H : Nat) : Int)).toNat = if 0 ≤ v then v.toNat else (v + (2 * H : Nat)).toNat := by
+  split
+  · rw [Int.emod_eq_of_lt (by omega) (by omega)]
+  · rw [← Int.add_emod_right, Int.emod_eq_of_lt (by omega) (by omega)]
+
+theorem slebVal_enc (n : Nat) (v : Int) (hn : 1 ≤ n)
+    (hlo : -((2 ^ (7 * n - 1) : Nat) : Int) ≤ v) (hhi : v < ((2 ^ (7 * n - 1) : Nat) : Int)) :
+    slebVal (encSlebN n v) = v := by
+  obtain ⟨m, rfl⟩ : ∃ m, n = m + 1 := ⟨n - 1, by omega⟩
+  have eH : 2 ^ (7 * (m + 1) - 1) = 64 * 128 ^ m := by
+    rw [show 7 * (m + 1) - 1 = 6 + 7 * m by omega, Nat.pow_add, Nat.pow_mul]
+  have eM : 2 ^ (7 * (m + 1)) = 2 * (64 * 128 ^ m) := by
+    rw [show 7 * (m + 1) = 7 + 7 * m by omega, Nat.pow_add, Nat.pow_mul, show (2:Nat) ^ 7 = 128 from rfl]
+    omega
+  rw [eH] at hlo hhi
+  have hpos : 0 < 128 ^ m := Nat.pow_pos (by decide)
+  unfold slebVal encSlebN
+  rw [encUlebN_getLast?, ulebVal_enc, encUlebN_length]
+  have key : ∀ x : Nat, x % 128 % 2 ^ 8 % 128 = x % 128 := by intro x; omega
+  simp only [UInt8.toNat_ofNat', key]
+  rw [eM, emod_two_mul hlo hhi]
+  generalize 128 ^ m = Q at *
+  split
+  · rename_i hv
+    have hw : v.toNat < 64 * Q := by omega
+    have hd : v.toNat / Q < 64 := (Nat.div_lt_iff_lt_mul hpos).2 hw
+    rw [Nat.mod_eq_of_lt (show v.toNat < 2 * (64 * Q) by omega)]
+    rw [Nat.mod_eq_of_lt (show v.toNat / Q < 128 by omega), if_neg (by omega)]
+    omega
+  · rename_i hv
+    have hw1 : 64 * Q ≤ (v + ((2 * (64 * Q) : Nat) : Int)).toNat := by omega
+    have hw2 : (v + ((2 * (64 * Q) : Nat) : Int)).toNat < 2 * (64 * Q) := by omega
+    have hvw : v = (((v + ((2 * (64 * Q) : Nat) : Int)).toNat : Nat) : Int) - ((2 * (64 * Q) : Nat) : Int) := by omega
+    generalize (v + ((2 * (64 * Q) : Nat) : Int)).toNat = w at *
+    have hd1 : 64 ≤ w / Q := (Nat.le_div_iff_mul_le hpos).2 hw1
+    have hd2 : w / Q < 128 := (Nat.div_lt_iff_lt_mul hpos).2 (by omega)
+    rw [Nat.mod_eq_of_lt hw2, Nat.mod_eq_of_lt hd2, if_pos hd1]
+    omega
+
+theorem drop_pre {α} (pre bs rest : List α) : (pre ++ bs ++ rest).drop pre.length = bs ++ rest := by
+  simp [List.append_assoc]
+
+theorem drop_pre' {α} (pre bs : List α) : (pre ++ bs).drop pre.length = bs := by simp
+
+theorem length_of_drop {α} {data : List α} {pos : Nat} {l : List α} (h : data.drop pos = l) :
+    data.length - pos = l.length := by
+  rw [← h, List.length_drop]
+
+theorem readExact_ok {data : Bytes} {pos n : Nat} {bs rest : Bytes}
+    (h : data.drop pos = bs ++ rest) (hn : bs.length = n) : readExact data pos n = .ok bs := by
+  subst hn
+  simp [readExact, readN, h]
+
+theorem readExact_short {data : Bytes} {pos n : Nat} {bs : Bytes}
+    (h : data.drop pos = bs) (hn : bs.length < n) : readExact data pos n = .error .elfParseError := by
+  have : min n bs.length ≠ n := by omega
+  simp [readExact, readN, h, this]
+
+theorem parseUleb_valid {data : Bytes} {pos : Nat} {bs rest : Bytes}
+    (hd : data.drop pos = bs ++ rest) (h : ValidLEB bs = true) :
+    parseUleb data pos = .ok (ulebVal bs, pos + bs.length) := by
+  have hl := length_of_drop hd
+  have := ulebLoop_valid data rest bs h (data.length - pos + 1) pos 0 0
+    (by simp at hl; omega) hd (by simp)
+  simpa [parseUleb] using this
+
+theorem parseUleb_trunc {data : Bytes} {pos : Nat} {bs : Bytes}
+    (hd : data.drop pos = bs) (h : ∀ b ∈ bs, 128 ≤ b.toNat) :
+    parseUleb data pos = .error .elfParseError :=
+  ulebLoop_trunc data bs h _ _ _ _ hd
+
+theorem parseSleb_valid {data : Bytes} {pos : Nat} {bs rest : Bytes}
+    (hd : data.drop pos = bs ++ rest) (h : ValidLEB bs = true) :
+    parseSleb data pos = .ok (slebVal bs, pos + bs.length) := by
+  have hl := length_of_drop hd
+  cases hlast : bs.getLast? with
+  | none =>
+    have : bs = [] := by simpa using hlast
+    subst this; simp [ValidLEB] at h
+  | some l =>
+    have := slebLoop_valid data rest bs h (data.length - pos + 1) pos 0 0 l
+      (by simp at hl; omega) hd (by simp) hlast
+    simp only [parseSleb, this, slebVal, hlast]
+    simp
+
+theorem parseSleb_trunc {data : Bytes} {pos : Nat} {bs : Bytes}
+    (hd : data.drop pos = bs) (h : ∀ b ∈ bs, 128 ≤ b.toNat) :
+    parseSleb data pos = .error .elfParseError :=
+  slebLoop_trunc data bs h _ _ _ _ hd
+
+theorem encSlebN_length (n : Nat) (v : Int) : (encSlebN n v).length = n := encUlebN_length _ _
+theorem encSlebN_valid (n : Nat) (v : Int) (hn : 1 ≤ n) : ValidLEB (encSlebN n v) = true :=
+  encUlebN_valid _ _ hn
+
+/-! ### fixed-width codecs -/
+
+theorem natLE_length (n v : Nat) : (natLE n v).length = n := by
+  induction n generalizing v with
+  | zero => rfl
+  | succ n ih => simp [natLE, ih]
+
+theorem leNat_natLE (n v : Nat) : leNat (natLE n v) = v % 256 ^ n := by
+  induction n generalizing v with
+  | zero => simp [natLE, leNat, Nat.mod_one]
+  | succ n ih =>
+    rw [natLE, leNat, ih, Nat.pow_succ', Nat.mod_mul, UInt8.toNat_ofNat']
+    omega
+
+theorem encNat_length (le : Bool) (n v : Nat) : (encNat le n v).length = n := by
+  cases le <;> simp [encNat, natBE, natLE_length]
+
+theorem decNat_encNat (le : Bool) (n v : Nat) : decNat le (encNat le n v) = v % 256 ^ n := by
+  cases le <;> simp [decNat, encNat, natBE, beNat, leNat_natLE]
+
+theorem decNat_encNat_of_lt (le : Bool) {n v : Nat} (h : v < 256 ^ n) :
+    decNat le (encNat le n v) = v := by
+  rw [decNat_encNat, Nat.mod_eq_of_lt h]
+
+theorem decNat_singleton (le : Bool) (b : UInt8) : decNat le [b] = b.toNat := by
+  cases le <;> simp [decNat, beNat, leNat]
+
+theorem ofSigned_lt (bits : Nat) (v : Int) : ofSigned bits v < 2 ^ bits := by
+  unfold ofSigned
+  have hp : 0 < 2 ^ bits := Nat.two_pow_pos bits
+  have h1 := Int.emod_nonneg v (b := ((2 ^ bits : Nat) : Int)) (by omega)
+  have h2 := Int.emod_lt_of_pos v (b := ((2 ^ bits : Nat) : Int)) (by omega)
+  omega
+
+theorem toSigned_ofSigned (bits : Nat) (v : Int) (hb : 1 ≤ bits)
+    (hlo : -((2 ^ (bits - 1) : Nat) : Int) ≤ v) (hhi : v < ((2 ^ (bits - 1) : Nat) : Int)) :
+    toSigned bits (ofSigned bits v) = v := by
+  have e : 2 ^ bits = 2 * 2 ^ (bits - 1) := by
+    rw [← Nat.pow_succ']; congr 1; omega
+  unfold toSigned ofSigned
+  rw [e, emod_two_mul hlo hhi]
+  generalize 2 ^ (bits - 1) = H at *
+  split <;> split <;> omega
+
+theorem drop_add_of_drop {α} {data : List α} {pos : Nat} {a b : List α} (h : data.drop pos = a ++ b) :
+    data.drop (pos + a.length) = b := by
+  rw [← List.drop_drop, h]; simp
+
+/-! ### `Con.parse` on primitive constructs -/
+
+theorem parse_uint_ok {env : Env} {data : Bytes} {pos n : Nat} {le : Bool} {ctx : Fields}
+    {bs rest : Bytes} (hd : data.drop pos = bs ++ rest) (hn : bs.length = n) :
+    Con.parse env data (.uint n le) ctx pos = .ok (.int (decNat le bs), pos + n, ctx) := by
+  rw [Con.parse, readExact_ok hd hn]; rfl
+
+theorem parse_uint_short {env : Env} {data : Bytes} {pos n : Nat} {le : Bool} {ctx : Fields}
+    {bs : Bytes} (hd : data.drop pos = bs) (hn : bs.length < n) :
+    Con.parse env data (.uint n le) ctx pos = .error .elfParseError := by
+  rw [Con.parse, readExact_short hd hn]; rfl
+
+theorem parse_sint_ok {env : Env} {data : Bytes} {pos n : Nat} {le : Bool} {ctx : Fields}
+    {bs rest : Bytes} (hd : data.drop pos = bs ++ rest) (hn : bs.length = n) :
+    Con.parse env data (.sint n le) ctx pos
+      = .ok (.int (toSigned (8 * n) (decNat le bs)), pos + n, ctx) := by
+  rw [Con.parse, readExact_ok hd hn]; rfl
+
+theorem parse_sint_short {env : Env} {data : Bytes} {pos n : Nat} {le : Bool} {ctx : Fields}
+    {bs : Bytes} (hd : data.drop pos = bs) (hn : bs.length < n) :
+    Con.parse env data (.sint n le) ctx pos = .error .elfParseError := by
+  rw [Con.parse, readExact_short hd hn]; rfl
+
+theorem parse_u24_short {env : Env} {data : Bytes} {pos : Nat} {le : Bool} {ctx : Fields}
+    {bs : Bytes} (hd : data.drop pos = bs) (hn : bs.length < 3) :
+    Con.parse env data (.u24 le) ctx pos = .error .elfParseError := by
+  rw [Con.parse, readExact_short hd hn]; rfl
+
+theorem u24_arith (v : Nat) (hv : v < 2 ^ 24) :
+    (v % 256 + 256 * (v / 256 % 256)) ||| ((v / 256 / 256 % 256) <<< 16) = v := by
+  rw [or_shl_eq_add _ (by omega)]; omega
+
+theorem parse_u24_ok {env : Env} {data : Bytes} {pos : Nat} {le : Bool} {ctx : Fields}
+    {v : Nat} {rest : Bytes} (hv : v < 2 ^ 24) (hd : data.drop pos = encNat le 3 v ++ rest) :
+    Con.parse env data (.u24 le) ctx pos = .ok (.int (v : Int), pos + 3, ctx) := by
+  rw [Con.parse, readExact_ok hd (encNat_length le 3 v)]
+  have := u24_arith v hv
+  cases le <;>
+    simp [encNat, natBE, natLE, leNat, beNat, UInt8.toNat_ofNat', bind, Except.bind, pure, Except.pure]
+  all_goals rw [this]
+
+
+theorem parse_uleb_ok {env : Env} {data : Bytes} {pos : Nat} {ctx : Fields} {bs rest : Bytes}
+    (hd : data.drop pos = bs ++ rest) (h : ValidLEB bs = true) :
+    Con.parse env data .uleb ctx pos = .ok (.int (ulebVal bs), pos + bs.length, ctx) := by
+  rw [Con.parse, parseUleb_valid hd h]; rfl
+
+/-! ### NUL-terminated strings -/
+
+theorem cstringLoop_ok (data rest s : Bytes) (hs : ∀ b ∈ s, b ≠ 0) :
+    ∀ fuel pos acc, s.length + 1 ≤ fuel → data.drop pos = s ++ 0 :: rest →
+      cstringLoop data fuel pos acc = .ok (acc.reverse ++ s, pos + s.length + 1) := by
+  induction s with
+  | nil =>
+    intro fuel pos acc hf hd
+    obtain ⟨hb, -⟩ := drop_cons_inv (by simpa using hd)
+    cases fuel with
+    | zero => simp at hf
+    | succ fuel => rw [cstringLoop, hb]; simp
+  | cons b s ih =>
+    intro fuel pos acc hf hd
+    obtain ⟨hb, hd'⟩ := drop_cons_inv (by simpa using hd)
+    cases fuel with
+    | zero => simp at hf
+    | succ fuel =>
+      rw [cstringLoop, hb]
+      simp only [if_neg (hs b (by simp))]
+      rw [ih (fun x hx => hs x (by simp [hx])) fuel (pos + 1) (b :: acc) (by simpa using hf) hd']
+      simp; omega
+
+theorem cstringLoop_unterminated (data s : Bytes) (hs : ∀ b ∈ s, b ≠ 0) :
+    ∀ fuel pos acc, data.drop pos = s →
+      cstringLoop data fuel pos acc = .error .elfParseError := by
+  induction s with
+  | nil =>
+    intro fuel pos acc hd
+    cases fuel with
+    | zero => rfl
+    | succ fuel => rw [cstringLoop, drop_nil_inv hd]
+  | cons b s ih =>
+    intro fuel pos acc hd
+    obtain ⟨hb, hd'⟩ := drop_cons_inv hd
+    cases fuel with
+    | zero => rfl
+    | succ fuel =>
+      rw [cstringLoop, hb]
+      simp only [if_neg (hs b (by simp))]
+      exact ih (fun x hx => hs x (by simp [hx])) fuel (pos + 1) (b :: acc) hd'
+
+theorem parseCString_ok {data : Bytes} {pos : Nat} {s rest : Bytes} (hs : ∀ b ∈ s, b ≠ 0)
+    (hd : data.drop pos = s ++ [0] ++ rest) :
+    parseCString data pos = .ok (s, pos + s.length + 1) := by
+  have hd' : data.drop pos = s ++ 0 :: rest := by simpa using hd
+  have hl := length_of_drop hd'
+  have := cstringLoop_ok data rest s hs (data.length - pos + 1) pos [] (by simp at hl; omega) hd'
+  simpa [parseCString] using this
+
+theorem parseCString_unterminated {data : Bytes} {pos : Nat} {s : Bytes} (hs : ∀ b ∈ s, b ≠ 0)
+    (hd : data.drop pos = s) : parseCString data pos = .error .elfParseError :=
+  cstringLoop_unterminated data s hs _ _ _ hd
+
+theorem firstNul_append_of_no_nul (c r : Bytes) (h : (0 : UInt8) ∉ c) :
+    firstNul (c ++ r) = (firstNul r).map (c ++ ·) := by
+  induction c with
+  | nil => simp
+  | cons b c ih =>
+    have hb : b ≠ 0 := by intro e; exact h (by simp [e])
+    have hc : (0 : UInt8) ∉ c := by intro e; exact h (by simp [e])
+    simp [firstNul, hb, ih hc, Option.map_map, Function.comp_def]
+
+theorem firstNul_of_no_nul (c : Bytes) (h : (0 : UInt8) ∉ c) : firstNul c = none := by
+  have := firstNul_append_of_no_nul c [] h
+  simpa [firstNul] using this
+
+theorem firstNul_of_idxOf (c r : Bytes) (i : Nat) (h : c.idxOf? (0 : UInt8) = some i) :
+    firstNul (c ++ r) = some (c.take i) := by
+  induction c generalizing i with
+  | nil => simp at h
+  | cons b c ih =>
+    rw [List.idxOf?_cons] at h
+    by_cases hb : b = 0
+    · simp [hb] at h
+      subst h; simp [firstNul, hb]
+    · simp [hb] at h
+      obtain ⟨j, hj, rfl⟩ := h
+      simp [firstNul, hb, ih j hj]
+
+theorem cstringChunkLoop_eq (data : Bytes) (k : Nat) (hk : 1 ≤ k) :
+    ∀ fuel pos acc, data.length - pos + 1 ≤ fuel →
+      cstringChunkLoop data k fuel pos acc = .ok ((firstNul (data.drop pos)).map (acc ++ ·)) := by
+  intro fuel
+  induction fuel with
+  | zero => intro pos acc hf; omega
+  | succ fuel ih =>
+    intro pos acc hf
+    rw [cstringChunkLoop]
+    generalize hc : readN data pos k = c
+    have hc' : c = (data.drop pos).take k := hc.symm
+    have hsplit : data.drop pos = c ++ data.drop (pos + k) := by
+      rw [hc', ← List.drop_drop, List.take_append_drop]
+    have hclen : c.length = min k (data.length - pos) := by
+      rw [hc', List.length_take, List.length_drop]
+    cases hi : c.idxOf? (0 : UInt8) with
+    | some i =>
+      simp only
+      rw [hsplit, firstNul_of_idxOf _ _ _ hi]
+      rfl
+    | none =>
+      simp only
+      have hno : (0 : UInt8) ∉ c := by simpa using hi
+      by_cases hlen : c.length < k
+      · rw [if_pos hlen]
+        have : data.drop pos = c := by
+          rw [hc']; symm
+          apply List.take_of_length_le
+          rw [List.length_drop]; omega
+        rw [this, firstNul_of_no_nul _ hno]; rfl
+      · rw [if_neg hlen]
+        rw [ih (pos + k) _ (by omega)]
+        conv => rhs; rw [hsplit, firstNul_append_of_no_nul _ _ hno]
+        simp [Option.map_map, Function.comp_def]
+
+/-! ### DWARF initial length -/
+
+theorem parse_initlen_32 {env : Env} {data : Bytes} {pos : Nat} {le : Bool} {ctx : Fields}
+    {bs rest : Bytes} (hd : data.drop pos = bs ++ rest) (hn : bs.length = 4)
+    (h : decNat le bs < 0xFFFFFF00) :
+    Con.parse env data (.initialLength le) ctx pos
+      = .ok (.int (decNat le bs), pos + 4, Fields.set ctx "is64" (.bool false)) := by
+  rw [Con.parse, readExact_ok hd hn]
+  simp only [bind, Except.bind, if_pos h]; rfl
+
+theorem parse_initlen_64 {env : Env} {data : Bytes} {pos : Nat} {le : Bool} {ctx : Fields}
+    {bs bs2 rest : Bytes} (hd : data.drop pos = bs ++ (bs2 ++ rest)) (hn : bs.length = 4)
+    (hn2 : bs2.length = 8) (h : decNat le bs = 0xFFFFFFFF) :
+    Con.parse env data (.initialLength le) ctx pos
+      = .ok (.int (decNat le bs2), pos + 12, Fields.set ctx "is64" (.bool true)) := by
+  have hd2 : data.drop (pos + 4) = bs2 ++ rest := by rw [← hn]; exact drop_add_of_drop hd
+  rw [Con.parse, readExact_ok hd hn]
+  simp only [bind, Except.bind, h, readExact_ok hd2 hn2]
+  rfl
+
+theorem parse_initlen_reserved {env : Env} {data : Bytes} {pos : Nat} {le : Bool} {ctx : Fields}
+    {bs rest : Bytes} (hd : data.drop pos = bs ++ rest) (hn : bs.length = 4)
+    (h1 : 0xFFFFFF00 ≤ decNat le bs) (h2 : decNat le bs ≠ 0xFFFFFFFF) :
+    Con.parse env data (.initialLength le) ctx pos = .error .elfParseError := by
+  rw [Con.parse, readExact_ok hd hn]
+  simp only [bind, Except.bind, if_neg (Nat.not_lt.2 h1), if_neg h2]
+
+theorem parse_initlen_short {env : Env} {data : Bytes} {pos : Nat} {le : Bool} {ctx : Fields}
+    {bs : Bytes} (hd : data.drop pos = bs) (hn : bs.length < 4) :
+    Con.parse env data (.initialLength le) ctx pos = .error .elfParseError := by
+  rw [Con.parse, readExact_short hd hn]; rfl
+
+/-! ### arrays of bytes -/
+
+theorem arrayLoop_bytes (env : Env) (data : Bytes) (le : Bool) (ctx : Fields) (rest : Bytes) :
+    ∀ (payload : Bytes) (pos : Nat) (acc : List Val), data.drop pos = payload ++ rest →
+      arrayLoop (fun p c => Con.parse env data (.uint 1 le) c p) payload.length pos ctx acc
+        = .ok (.list (acc.reverse ++ payload.map fun b => .int b.toNat), pos + payload.length, ctx) := by
+  intro payload
+  induction payload with
+  | nil => intro pos acc _; simp [arrayLoop]
+  | cons b payload ih =>
+    intro pos acc hd
+    have hd1 : data.drop pos = [b] ++ (payload ++ rest) := by simpa using hd
+    obtain ⟨-, hd'⟩ := drop_cons_inv (by simpa using hd)
+    simp only [List.length_cons, arrayLoop]
+    rw [parse_uint_ok (n := 1) hd1 rfl, decNat_singleton]
+    simp only
+    rw [ih (pos + 1) _ hd']
+    simp; omega
+
+theorem arrayLoop_bytes_trunc (env : Env) (data : Bytes) (le : Bool) (ctx : Fields) :
+    ∀ (m pos : Nat) (acc : List Val), data.length - pos < m →
+      arrayLoop (fun p c => Con.parse env data (.uint 1 le) c p) m pos ctx acc
+        = .error .elfParseError := by
+  intro m
+  induction m with
+  | zero => intro pos acc h; omega
+  | succ m ih =>
+    intro pos acc h
+    rw [arrayLoop]
+    cases hdp : data.drop pos with
+    | nil =>
+      rw [parse_uint_short hdp (by simp)]
+    | cons b t =>
+      have hd1 : data.drop pos = [b] ++ t := by simpa using hdp
+      have hl := length_of_drop hdp
+      rw [parse_uint_ok (n := 1) hd1 rfl]
+      simp only
+      exact ih (pos + 1) _ (by simp at hl; omega)
+
+theorem parse_prefixed_bytes {env : Env} {data : Bytes} {pos : Nat} {le : Bool} {ctx : Fields}
+    {len : Con} {payload rest : Bytes} {p : Nat}
+    (hlen : Con.parse env data len ctx pos = .ok (.int (payload.length : Nat), p, ctx))
+    (hd : data.drop p = payload ++ rest) :
+    Con.parse env data (.prefixed len (.uint 1 le)) ctx pos
+      = .ok (.list (payload.map fun b => .int b.toNat), p + payload.length, ctx) := by
+  rw [Con.parse, hlen]
+  simp only [bind, Except.bind, Val.asInt, Int.toNat_natCast]
+  rw [arrayLoop_bytes env data le ctx rest payload p [] hd]
+  simp
+
+theorem parse_prefixed_bytes_trunc {env : Env} {data : Bytes} {pos : Nat} {le : Bool} {ctx : Fields}
+    {len : Con} {m p : Nat}
+    (hlen : Con.parse env data len ctx pos = .ok (.int (m : Nat), p, ctx))
+    (h : data.length - p < m) :
+    Con.parse env data (.prefixed len (.uint 1 le)) ctx pos = .error .elfParseError := by
+  rw [Con.parse, hlen]
+  simp only [bind, Except.bind, Val.asInt, Int.toNat_natCast]
+  exact arrayLoop_bytes_trunc env data le ctx m p [] h
+
+/-! ### RepeatUntilExcluding over C strings -/
+
+theorem parse_cstring_ok {env : Env} {data : Bytes} {pos : Nat} {ctx : Fields} {s rest : Bytes}
+    (hs : ∀ b ∈ s, b ≠ 0) (hd : data.drop pos = s ++ [0] ++ rest) :
+    Con.parse env data .cstring ctx pos = .ok (.bytes s, pos + s.length + 1, ctx) := by
+  rw [Con.parse, parseCString_ok hs hd]; rfl
+
+theorem stop_empty_bytes (s : Bytes) (c : Fields) :
+    (do return (← (Expr.eq .obj (.bytesLit [])).eval c (.bytes s)).truthy : R Bool)
+      = .ok (s == []) := by
+  simp [Expr.eval, bind, Except.bind, pure, Except.pure, Val.truthy, BEq.beq, Val.beq]
+
+theorem flatMap_nul_length_ge (ss : List Bytes) :
+    ss.length ≤ (ss.flatMap fun s => s ++ [0]).length := by
+  induction ss with
+  | nil => simp
+  | cons s ss ih => simp only [List.flatMap_cons, List.length_append, List.length_cons]; omega
+
+theorem repeatLoop_cstrings (env : Env) (data rest : Bytes) (ctx : Fields)
+    (stop : Val → Fields → R Bool) (hstop : ∀ s c, stop (.bytes s) c = .ok (s == [])) :
+    ∀ (ss : List Bytes) (fuel pos : Nat) (acc : List Val),
+      (∀ s ∈ ss, s ≠ [] ∧ ∀ b ∈ s, b ≠ 0) → ss.length + 1 ≤ fuel →
+      data.drop pos = (ss.flatMap fun s => s ++ [0]) ++ [0] ++ rest →
+      repeatLoop (fun p c => Con.parse env data .cstring c p) stop fuel pos ctx acc
+        = .ok (.list (acc.reverse ++ ss.map .bytes),
+               pos + (ss.flatMap fun s => s ++ [0]).length + 1, ctx) := by
+  intro ss
+  induction ss with
+  | nil =>
+    intro fuel pos acc _ hf hd
+    cases fuel with
+    | zero => omega
+    | succ fuel =>
+      have hd0 : data.drop pos = ([] : Bytes) ++ [0] ++ rest := by simpa using hd
+      rw [repeatLoop, parse_cstring_ok (by simp) hd0]
+      simp [hstop]
+  | cons s ss ih =>
+    intro fuel pos acc hs hf hd
+    cases fuel with
+    | zero => omega
+    | succ fuel =>
+      obtain ⟨hne, hnz⟩ := hs s (by simp)
+      have hd0 : data.drop pos = s ++ [0] ++ ((ss.flatMap fun s => s ++ [0]) ++ [0] ++ rest) := by
+        simpa [List.append_assoc] using hd
+      have hd1 : data.drop (pos + s.length + 1) = (ss.flatMap fun s => s ++ [0]) ++ [0] ++ rest := by
+        have := drop_add_of_drop hd0
+        simpa [Nat.add_assoc] using this
+      have hbeq : (s == []) = false := by simpa using hne
+      rw [repeatLoop, parse_cstring_ok hnz hd0]
+      simp only [hstop, hbeq]
+      rw [ih fuel _ _ (fun x hx => hs x (by simp [hx])) (by simp at hf; omega) hd1]
+      simp; omega
+
+theorem parse_repeat_cstrings {env : Env} {data : Bytes} {pos : Nat} {ctx : Fields}
+    {ss : List Bytes} {rest : Bytes} (hs : ∀ s ∈ ss, s ≠ [] ∧ ∀ b ∈ s, b ≠ 0)
+    (hd : data.drop pos = (ss.flatMap fun s => s ++ [0]) ++ [0] ++ rest) :
+    Con.parse env data (.repeatUntilExcl (.eq .obj (.bytesLit [])) .cstring) ctx pos
+      = .ok (.list (ss.map .bytes), pos + (ss.flatMap fun s => s ++ [0]).length + 1, ctx) := by
+  have hl := length_of_drop hd
+  have hge := flatMap_nul_length_ge ss
+  rw [Con.parse]
+  rw [repeatLoop_cstrings env data rest ctx _ (fun s c => stop_empty_bytes s c) ss _ pos [] hs
+    (by simp only [List.length_append, List.length_cons, List.length_nil] at hl; omega) hd]
+  simp
+
+/-! ### packaged forms used by Props/C16 -/
+
+theorem drop_pre3 {α} (pre a b c : List α) :
+    (pre ++ a ++ b ++ c).drop pre.length = a ++ (b ++ c) := by
+  simp [List.append_assoc]
+
+theorem drop_pre3' {α} (pre a b c : List α) :
+    (pre ++ a ++ b ++ c).drop pre.length = a ++ b ++ c := by
+  simp [List.append_assoc]
+
+theorem ulebVal_enc_of_lt {n v : Nat} (hv : v < 2 ^ (7 * n)) : ulebVal (encUlebN n v) = v := by
+  rw [ulebVal_enc, Nat.mod_eq_of_lt hv]
+
+theorem sint_codec (le : Bool) (n : Nat) (v : Int) (hn : 1 ≤ n)
+    (hlo : -((2 ^ (8 * n - 1) : Nat) : Int) ≤ v) (hhi : v < ((2 ^ (8 * n - 1) : Nat) : Int)) :
+    toSigned (8 * n) (decNat le (encNat le n (ofSigned (8 * n) v))) = v := by
+  have hlt : ofSigned (8 * n) v < 256 ^ n := by
+    have := ofSigned_lt (8 * n) v
+    rwa [Nat.pow_mul] at this
+  rw [decNat_encNat_of_lt le hlt, toSigned_ofSigned _ _ (by omega) hlo hhi]
+
+theorem parse_sleb_ok {env : Env} {data : Bytes} {pos : Nat} {ctx : Fields} {bs rest : Bytes}
+    (hd : data.drop pos = bs ++ rest) (h : ValidLEB bs = true) :
+    Con.parse env data .sleb ctx pos = .ok (.int (slebVal bs), pos + bs.length, ctx) := by
+  rw [Con.parse, parseSleb_valid hd h]; rfl
+
+theorem parse_block_fixed {env : Env} {data : Bytes} {pos n : Nat} {le : Bool} {ctx : Fields}
+    {payload rest : Bytes} (hlen : payload.length < 256 ^ n)
+    (hd : data.drop pos = encNat le n payload.length ++ (payload ++ rest)) :
+    Con.parse env data (.prefixed (.uint n le) (.uint 1 le)) ctx pos
+      = .ok (.list (payload.map fun b => .int b.toNat), pos + n + payload.length, ctx) := by
+  have h1 := parse_uint_ok (env := env) (le := le) (ctx := ctx) hd (encNat_length le n payload.length)
+  rw [decNat_encNat_of_lt le hlen] at h1
+  have hd2 : data.drop (pos + n) = payload ++ rest := by
+    have := drop_add_of_drop hd
+    rwa [encNat_length] at this
+  exact parse_prefixed_bytes h1 hd2
+
+theorem parse_block_uleb {env : Env} {data : Bytes} {pos k : Nat} {le : Bool} {ctx : Fields}
+    {payload rest : Bytes} (hk : 1 ≤ k) (hlen : payload.length < 2 ^ (7 * k))
+    (hd : data.drop pos = encUlebN k payload.length ++ (payload ++ rest)) :
+    Con.parse env data (.prefixed .uleb (.uint 1 le)) ctx pos
+      = .ok (.list (payload.map fun b => .int b.toNat), pos + k + payload.length, ctx) := by
+  have h1 := parse_uleb_ok (env := env) (ctx := ctx) hd (encUlebN_valid k payload.length hk)
+  rw [ulebVal_enc_of_lt hlen, encUlebN_length] at h1
+  have hd2 : data.drop (pos + k) = payload ++ rest := by
+    have := drop_add_of_drop hd
+    rwa [encUlebN_length] at this
+  exact parse_prefixed_bytes h1 hd2
+
+theorem parse_block_trunc {env : Env} {data : Bytes} {pos n len : Nat} {le : Bool} {ctx : Fields}
+    {payload : Bytes} (hlen : len < 256 ^ n) (h : payload.length < len)
+    (hd : data.drop pos = encNat le n len ++ payload) :
+    Con.parse env data (.prefixed (.uint n le) (.uint 1 le)) ctx pos = .error .elfParseError := by
+  have h1 := parse_uint_ok (env := env) (le := le) (ctx := ctx) hd (encNat_length le n len)
+  rw [decNat_encNat_of_lt le hlen] at h1
+  have hl := length_of_drop hd
+  rw [List.length_append, encNat_length] at hl
+  exact parse_prefixed_bytes_trunc h1 (by omega)
 
 end PyElf.Proofs
